@@ -173,7 +173,7 @@ def special(res):
         for desc in (False, True):
             q = f'SELECT {sel} FROM #transactions ORDER BY {key}' + (' DESC' if desc else '')
             res.case(q, {'query': q})
-            exp = [(getattr(t, sel),) for t in sorted(txns, key=lambda t: getattr(t, key), reverse=desc)]
+            exp = [(getattr(t, sel),) for t in sorted(txns, key=lambda t: (getattr(t, key) is not None, getattr(t, key) if getattr(t, key) is not None else type(getattr(txns[0], key))()), reverse=desc)]
             try:
                 got = [tuple(r) for r in lc.execute(q).fetchall()]
             except Exception as e:
